@@ -6,3 +6,8 @@ func init() {
 	register("C07", ruleCode39Tables, ruleCode93Tables)
 	register("C08", ruleCodabarTable, ruleTwoOfFiveTables)
 }
+
+func init() {
+	register("C17", ruleNegMod)
+	register("C10", ruleNegMod)
+}
